@@ -230,7 +230,7 @@ pub fn property() -> Property {
             SubCheck {
                 name: "mod-representations",
                 rule: "G-MAP (all modes + converts, <=30 objects) x legacy-representable mod bits (subsets of NF EZ TD HD HR DT NC HT FL SO RX AP incl. a share of incompatible selections, NC always as 576, key mods 1K-9K) x the remaining settings (lazer flag unset/true/false, clock rate, overrides, hardrock_offsets, passed_objects; identical for every representation) x score spec. Oracle: difficulty, strains, performance (settings via Difficulty and via Performance::mods), BeatmapAttributesBuilder::mods(..).build()/hit_windows() are same-value-equal for u32, GameModsLegacy, GameModsIntermode, &GameModsIntermode and lazer intermode.try_with_mode(mode) (lazer leg skipped and labelled when the mode lacks a mod). Non-trivial: mods != NoMod and some result differs from the NoMod result.",
-                quick: 6000,
+                quick: 15_000,
                 thorough: 100_000,
                 tape_len: 1400,
                 f: case_repr,
@@ -239,7 +239,7 @@ pub fn property() -> Property {
             SubCheck {
                 name: "rate-and-difficulty-adjust",
                 rule: "same maps; lazer DT/NC/HT with speed_change r (1.01..2.00 / 0.50..0.99 step 0.01) vs legacy rate mod + clock_rate(r); lazer DifficultyAdjust{ar,cs,hp,od} on the 0.25 grid in [0,11] vs Difficulty::ar/cs/hp/od(v,false) (fields the mode's DA mod has). Compared: difficulty, strains, performance, attributes().difficulty(&D).build(). Non-trivial: >=2 objects.",
-                quick: 6000,
+                quick: 15_000,
                 thorough: 100_000,
                 tape_len: 1400,
                 f: case_rate_and_da,
